@@ -55,6 +55,15 @@ CHECKS["C20"] = dict(level="exploration", engine="E1", ref="§5 C20",
    text="Every result tree of the bounded grammar is built through every construction path and given to the real runner (test.RunExpr + test.Report for the value-level family, test.RunTests on an in-memory file system for the source-level and layout families); the run must fail exactly when the model's census has a leaf that is not the literal true (or a discovered file cannot be evaluated / none is discovered), every leaf must be reported once under its path with its outcome, and the summary counts must add up to the model's leaves. Exhaustive within the stated bounds.",
    note="The large tree space enters the runner behind the compiler (values composed from compiled forms, because parsing costs 5-20 ms per file); only ~900 (quick) / ~8,800 (thorough) trees and all layouts go through RunTests end to end. Hidden/dot targets, cwd targets, exotic dictionary keys/attribute names, report order and message texts are outside; files whose parse error wbnf renders in exponential time (empty file, unbalanced brackets) are excluded.")
 
+CHECKS["C09"] = dict(level="exploration", engine="E1", ref="§5 C09",
+   technique="bounded-exhaustive enumeration of a pattern grammar x pattern-directed value neighbourhoods on the real evaluator (let, function-parameter, cond positions), decided by a structural reference matcher written from the property text",
+   text="For every pattern of the bounded grammar (literals, names with all repetition configurations, _, (expr), arrays/tuples/dicts/sets nested to depth 2 quick / 3 thorough, ... / ...rest at every position, ?:fallbacks) and every value among its instances under all small bindings, their one-step neighbours (two levels deep) and a 65-value universe, let, function call and cond must agree with each other and with the reference matcher: match iff exactly one binding rebuilds the value, bindings equal, ...rest the exact remainder, fallbacks only for absent components, non-match = error / next arm; two-arm cond must pick the first arm that matches on its own with only that arm's bindings (all ordered pairs of 129/231 patterns); the 71 documentation examples must give their documented results. Exhaustive within the stated bounds (6 582 patterns / 2.19 M evaluations quick, 28 422 / 12.95 M thorough).",
+   note="Three areas the property and docs leave open accept either outcome (components next to a fallback without `...`, set patterns larger than the set, set patterns with more than one open element). 34 signatures (13 root causes: array offsets/holes ignored, repeated names compared by String(), set patterns with structured/string/computed elements, dict patterns on multi-valued or empty dicts, fallbacks counted as `...`) are recorded as known findings; coarse known signatures mask same-class regressions. Dynamic names, byte/relation patterns, sparse patterns and let rec are not enumerated.")
+CHECKS["C10"] = dict(level="exploration", engine="E1", ref="§5 C10 (a),(b)",
+   technique="bounded-exhaustive enumeration of all short token sequences, corpus truncations/deletions and all operator/stdlib applications over a kind alphabet on the real compiler and evaluator, each run under recover() and a watchdog; the deciding method is crash/hang observation (panic site signature), no reference values are needed",
+   text="Every sequence of <=3 tokens over a 41-token (thorough 60; length 4 over 24) alphabet of grammar terminals and malformed prefixes, every byte prefix and single-byte deletion of a 107-program corpus, every unary/binary/ternary operator form and every function of the safe standard library (curried, <=3 arguments) applied to every operand tuple over 20 (thorough 27) value kinds including ill-typed ones, is compiled and evaluated through syntax.EvaluateExpr / Expr.Eval and its value or error is reported as `arrai eval` does; any panic, fatal error or watchdog expiry is a failure identified by its panic site. Exhaustive within these bounds: a crash reachable by such an input is found; 71 crash sites (34 root causes) of the pinned tree are recorded as known findings and any other site is a violation.",
+   note="Inputs beyond the bounds are not covered (about 60 of ~166 panic sites are reached). A new crash at a known site with the same message class is not distinguished. Grammar-level errors are rendered for one input only because rendering them is itself a recorded defect (exponential time in wbnf). The worker has no network, no executables and an empty in-memory file system; //os, //net, //log, //deprecated and the recursion combinators are not applied; import graphs/cycles (part c) belong to another check; hang detection uses a 20 s watchdog.")
+
 NOT_YET = {
 }
 
